@@ -1504,7 +1504,6 @@ _add("C13", "partial", [
     "well-behaved Display (assumption)",
     "c13_read is near-definitional (runFault = feed with end-of-input replaced by Io); its content is the modelling claim that every state "
     "asks for another byte, tied by op rfault at every k",
-    "the error KIND is not part of the models' Io outcome ('carrying that error's kind' is checked by the harness: IO:<kind>); "
     "c13_typed_fault alone does not bound the error index - that follows from c13_typed_fault_eq + typed_within_input",
 ])
 _add("C16", "partial", [
@@ -1706,3 +1705,18 @@ PROPS["C05"]["level_text"] += (
     "rejected by the text target).")
 PROPS["C05"]["technique"] += ("; an independent WTF-8 decoding specification and a simulation of the raw-string automaton (pending-surrogate "
     "formulation = look-ahead formulation) by strong induction on the input")
+
+# C13 reader kind (branch wip-smalls)
+PROPS["C13"]["lean_targets"] = PROPS["C13"]["lean_targets"][:-1] + ["SJ.Props.C13Kind"] + PROPS["C13"]["lean_targets"][-1:]
+PROPS["C13"]["gen_keys"] = PROPS["C13"]["gen_keys"] + ["iokind.", "IoKind"]
+PROPS["C13"]["level_text"] += (
+    " The KIND (Props/C13Kind.lean over Model/IoKind.lean, Gen/IoKind.lean): the models' Io outcomes carry no payload; "
+    "Model.IoKind.parseFaultK threads the failing read's io::Error through IoRead::next / peek (`Some(Err(err)) => Err(Error::io(err))`, "
+    "the one arm for a failed read in each: Gen.ioReadErrArms = 2), Error::io (stores it: Gen.errorIoStoresError), classify (Io), "
+    "io_error_kind (`Some(io_error.kind())`: Gen.ioErrorKindReturnsInner) and io::Error::from (gives it back), all four shapes "
+    "re-extracted from src/read.rs / src/error.rs on every run (c13_io_error_kind_link). c13_kind_preserved: the outcome is "
+    "Model.IoFault.parseFault's with the error attached; when that is Io, classify() = Io, io_error_kind() = Some(e.kind) - THAT "
+    "error's kind - and io::Error::from returns e; a parser error of the delivered bytes has io_error_kind() = None; "
+    "c13_kind_only_from_reader (a reported kind is the reader's); c13_typed_kind_preserved, c13_item_kind (typed targets, stream "
+    "items: by attachment). Thin by design - the content is the four extracted shapes; the driver's rfault model now prints IO:<kind> "
+    "from io_error_kind() of the model's outcome instead of echoing the case line.")
